@@ -9,7 +9,7 @@ CLAIMED = {
     "C14": dict(
         category="other",
         technique="CrossHair/z3 bounded symbolic execution: frame conditions of every kernel, lattice laws of every domain, the real worklist solvers under a solver-chosen permutation, detectors on contexts with symbolic content",
-        text="Narrow claim. State isolation: for all constants the kernels leave module-level universes / key lists / enum tuples unchanged and return fresh objects. Order independence: union/intersection of every domain are commutative, associative, idempotent, absorbing and monotone (unique fixpoint), and the real GroupIndices solvers give the same sets for every permutation of the initial worklists of a 4-block function. Read-only detectors: each of the nine detectors leaves contexts with symbolic content unchanged. Operation order: for a contract whose three functions share two subroutines, analysed through init_tealer_from_config with a solver-chosen sequence of operations, every path detector reports for an operation the paths it reports when that operation is analysed alone.",
+        text="Narrow claim. State isolation: for all constants the kernels leave module-level universes / key lists / enum tuples unchanged and return fresh objects. Order independence: union/intersection of every domain are commutative, associative, idempotent, absorbing and monotone (unique fixpoint), and the real GroupIndices solvers give the same sets for every permutation of the initial worklists of a 4-block function. Read-only detectors: each of the nine detectors leaves contexts with symbolic content unchanged. Operation order: for a contract whose three functions share two subroutines, analysed through init_tealer_from_config with a solver-chosen sequence of operations, every path detector reports for an operation the paths it reports when that operation is analysed alone. History: after a solver-chosen history of 0-2 contracts (pool of five that reuse label names and shapes) analysed in the same process, all contexts and detector paths of a target equal those of a fresh interpreter.",
         note="hash-seed, set-iteration order across processes and byte-identical JSON are outside the technique (properties of interpreter runs) and are not claimed",
         design_ref="DESIGN.md section 4 C14", engine="K",
     ),
